@@ -208,6 +208,7 @@ static bool decode_prog(const std::vector<i64> &a, std::vector<PassDef> &passes,
     return true;
 }
 
+static std::vector<std::vector<unsigned>> g_last_matches;   // match sequences of the program generated last (texts of the same plan are built from them)
 static void gen_prog(u64 seed, std::vector<i64> &out) {
     Rng r(seed);
     unsigned np = 1 + r.below(4), nsub = r.below(np + 1); if (r.chance(1, 2) && nsub == 0) nsub = 1;
@@ -217,7 +218,10 @@ static void gen_prog(u64 seed, std::vector<i64> &out) {
     // slots earlier passes attached, and actions are mostly attachments: clusters with several children, re-attachment, deep chains
     const bool forest = r.chance(1, 2);
     std::vector<std::vector<unsigned>> shared;
-    if (forest) { unsigned ns = 1 + r.below(3); for (unsigned q = 0; q < ns; ++q) { std::vector<unsigned> m; unsigned len = 2 + r.below(3); for (unsigned z = 0; z < len; ++z) m.push_back(1 + r.below(3)); shared.push_back(m); } if (np < 2) np = 2; }
+    if (forest) { unsigned ns = 1 + r.below(3); for (unsigned q = 0; q < ns; ++q) { std::vector<unsigned> m;
+            if (q && r.chance(1, 2)) { m = shared[r.below(q)]; if (m.size() < 4 && r.chance(2, 3)) m.push_back(1 + r.below(3)); else if (m.size() > 2) m.pop_back(); else m.insert(m.begin(), 1 + r.below(3)); }   // one sequence extends another: a later pass sees the earlier rule's slots plus a neighbour
+            else { unsigned len = 2 + r.below(3); for (unsigned z = 0; z < len; ++z) m.push_back(1 + r.below(3)); }
+            shared.push_back(m); } if (np < 2) np = 2; }
     const bool zerocol = r.chance(1, 3);   // glyph 0 shares the first letter's FSM column (decided here: some rule templates depend on it)
     const bool fan = r.chance(1, 40);     // one rule re-fires in place up to maxRuleLoop (120..250) times, each time inserting a slot attached to the same parent
     if (fan && nsub == 0) nsub = 1;
@@ -239,11 +243,26 @@ static void gen_prog(u64 seed, std::vector<i64> &out) {
             bool shared_match = false;
             if (forest && r.chance(3, 4)) { const auto &m = shared[r.below(u32(shared.size()))]; if (m.size() > pk) { rd.match = m; len = unsigned(m.size()); shared_match = true; } }
             if (!shared_match) for (unsigned q = 0; q < len; ++q) rd.match.push_back(1 + r.below(r.chance(1, 2) ? 3 : ALPHA));
+            if (forest && i < nsub && len - pk >= 2 && r.chance(1, 6)) {
+                // "stale copy" rules: slots are changed and read again later in the rule (so the engine works on temporary
+                // copies taken when the rule started), some are deleted, and later slots copy from / attach to / read them
+                for (unsigned sl = pk; sl < len; ++sl) {
+                    const bool last = sl + 1 == len;
+                    int back = sl > 0 ? -int(1 + r.below(sl)) : 0;         // an earlier slot of the rule (pre-context included)
+                    if (sl > pk && r.chance(1, 2)) { w8(rd.action, PUT_COPY); w8(rd.action, u8(i64(back))); }
+                    if (r.chance(9, 10)) { w8(rd.action, PUT_GLYPH8); w8(rd.action, r.below(NGLYPH_USED)); }
+                    for (unsigned q = 0; sl > 0 && q < 2; ++q) if (r.chance(2, 3)) { int b2 = -int(1 + r.below(sl)); w8(rd.action, r.chance(1, 2) ? PUSH_SLOT_ATTR : PUSH_GLYPH_ATTR_OBS); w8(rd.action, r.below(2)); w8(rd.action, u8(i64(b2))); w8(rd.action, ATTR_SET); w8(rd.action, r.below(2)); }
+                    if (r.chance(1, 4)) { int tgt = int(r.below(len)); w8(rd.action, PUSH_BYTE); w8(rd.action, u8(i64(tgt - int(sl)))); w8(rd.action, ATTR_SET_SLOT); w8(rd.action, 2); }
+                    if (!last && r.chance(1, 3)) w8(rd.action, DELETE);
+                    w8(rd.action, NEXT);
+                }
+                w8(rd.action, RET_ZERO);
+            } else
             if (forest && r.chance(2, 3)) {
                 // every slot but one attaches to some other slot of the rule (mostly to one common parent), now and then something else happens too
                 unsigned parent = r.below(len);
                 for (unsigned sl = pk; sl < len; ++sl) {
-                    if (sl != parent || r.chance(1, 6)) { int tgt = r.chance(3, 4) ? int(parent) : int(r.below(len)); w8(rd.action, PUSH_BYTE); w8(rd.action, u8(i64(tgt - int(sl)))); w8(rd.action, ATTR_SET_SLOT); w8(rd.action, 2); }
+                    if ((sl != parent && r.chance(5, 6)) || r.chance(1, 6)) { int tgt = r.chance(3, 4) ? int(parent) : int(r.below(len)); w8(rd.action, PUSH_BYTE); w8(rd.action, u8(i64(tgt - int(sl)))); w8(rd.action, ATTR_SET_SLOT); w8(rd.action, 2); }
                     if (i < nsub && r.chance(1, 10)) { if (r.chance(1, 2)) { w8(rd.action, PUT_COPY); w8(rd.action, u8(i64(int(r.below(len)) - int(sl)))); } else { w8(rd.action, DELETE); } }
                     w8(rd.action, NEXT);
                 }
@@ -259,6 +278,7 @@ static void gen_prog(u64 seed, std::vector<i64> &out) {
         passes.push_back(pd);
     }
     SynthHdr h; if (r.chance(1, 3)) { h.flags = 1; h.badlb = r.chance(1, 5); } h.zerocol = zerocol; if (r.chance(1, 5)) h.bidi = 1 + r.below(4); if (r.chance(1, 6)) h.skipattr = 1 + r.below(8); if (r.chance(1, 4)) h.nlb = r.below(nsub + 1); if (r.chance(1, 3)) { unsigned nj = 1 + r.below(2); for (unsigned q = 0; q < 4 * nj; ++q) h.just.push_back(r.below(6)); }
+    g_last_matches.clear(); for (auto &pd : passes) for (auto &rd : pd.rules) g_last_matches.push_back(rd.match);
     encode_prog(passes, nsub, numUser, r.chance(1, 2), r.chance(1, 4), h, out);
 }
 
@@ -306,7 +326,18 @@ void silf_override(Store &st, const Fault &f) {
 }
 
 void synth_program(u64 seed, std::vector<i64> &out) { gen_prog(seed, out); }
-std::vector<u32> synth_text(Rng &r, unsigned maxlen) { std::vector<u32> t; unsigned len = 1 + r.below(maxlen); bool narrow = r.chance(1, 2); for (unsigned k = 0; k < len; ++k) t.push_back(r.chance(1, 8) ? 0x20 : 0x61 + r.below(narrow ? 3 : ALPHA)); return t; }
+std::vector<u32> synth_text(Rng &r, unsigned maxlen) {
+    // mostly made of the program's own match sequences (so that rules fire, and fire next to each other), glued with random letters
+    std::vector<u32> t; unsigned len = 1 + r.below(maxlen); bool narrow = r.chance(1, 2);
+    while (t.size() < len) {
+        if (!g_last_matches.empty() && r.chance(3, 5)) {
+            const std::vector<unsigned> *m = &g_last_matches[r.below(u32(g_last_matches.size()))], *m2 = &g_last_matches[r.below(u32(g_last_matches.size()))];
+            if (m2->size() > m->size()) m = m2;
+            for (unsigned g : *m) t.push_back(0x60 + g);
+        } else t.push_back(r.chance(1, 8) ? 0x20 : 0x61 + r.below(narrow ? 3 : ALPHA));
+    }
+    return t;
+}
 
 Plan gen_synth(u64 seed) {
     Rng r(seed); Plan p; p.mode = "synth"; p.seed = seed;
@@ -321,8 +352,8 @@ Plan gen_synth(u64 seed) {
         Op o; o.kind = "probe_seg"; static const int encs[] = {1, 2, 4};
         o.a = {0, r.chance(1, 2) ? 16 * 20 : 0, encs[r.below(3)], i64(r.below(8)), 0};
         unsigned len = r.chance(1, 10) ? 30 + r.below(100) : (r.chance(1, 6) ? 1 : 1 + r.below(10));
-        bool narrow = r.chance(1, 2);
-        for (unsigned k = 0; k < len; ++k) o.text.push_back(r.chance(1, 20) ? 0x20 : 0x61 + r.below(narrow ? 3 : ALPHA));
+        if (r.chance(1, 3)) { bool narrow = r.chance(1, 2); for (unsigned k = 0; k < len; ++k) o.text.push_back(r.chance(1, 20) ? 0x20 : 0x61 + r.below(narrow ? 3 : ALPHA)); }
+        else { o.text = synth_text(r, len); if (len == 1) o.text.resize(1); }
         p.ops.push_back(o);
     }
     Op d; d.kind = "destroy_face"; d.a = {0}; p.ops.push_back(d);
